@@ -62,7 +62,8 @@ static bool check_inv(queue& q, size_t n, size_t deq, const std::deque<uint64_t>
 
 int main(int argc, char** argv) {
   for (int i = 1; i < argc; ++i) { char* eq = strchr(argv[i], '='); if (!eq) continue; args[std::string(argv[i], eq - argv[i])] = strtoull(eq + 1, 0, 0); }
-  size_t n = args.count("in_n") ? args["in_n"] : 4, op = args["in_op"], deq = args["in_deq"], count = args["in_count"]; uint64_t val = args["in_val"];
+  size_t n = args.count("in_n") ? args["in_n"] : 4, op = args["in_op"], deq = args["in_deq"], count = args["in_count"], mid = args["in_mid"]; uint64_t val = args["in_val"];
+  if (n < 64) mid &= (size_t(1) << n) - 1;
   if (n < 2 || (n & (n - 1)) || n > (1u << 20) || count > n || op > 7) { printf("inputs cannot be represented\n"); return 2; }
   setvbuf(stdout, 0, _IONBF, 0); signal(SIGALRM, on_alarm); alarm(5);
   printf("N=%zu op=%zu deq=%zu count=%zu val=%llu\n", n, op, deq, count, (unsigned long long)val);
@@ -78,8 +79,21 @@ int main(int argc, char** argv) {
   q->dequeue_pos.store(deq); q->enqueue_pos.store(deq + count);
   for (size_t i = 0; i < n; ++i) {
     size_t p = deq + i; auto& c = q->cells[p & (n - 1)];
-    if (i < count) { uint64_t v = 1000 + i; new (&c.data) Tracked(v); c.sequence.store(p + 1); model.push_back(v); }
-    else { reinterpret_cast<Tracked*>(&c.data)->magic = DEAD; c.sequence.store(p); }
+    bool pending = n < 64 ? (mid >> i) & 1 : false;    // SOLO states: another thread has claimed this position and not finished
+    if (i < count && !pending) { uint64_t v = 1000 + i; new (&c.data) Tracked(v); c.sequence.store(p + 1); model.push_back(v); }
+    else {
+      reinterpret_cast<Tracked*>(&c.data)->magic = DEAD;
+      c.sequence.store(i < count ? p /* push of p claimed, not published */ : pending ? p - n + 1 /* pop of p-n claimed, cell not released */ : p);
+    }
+  }
+  if (mid) {
+    // mid-operation state: only the lock-free (weak) operations are meaningful; the obligation is that they return
+    if (op != 1 && op != 3) { printf("mid-operation states are only replayed for the weak operations\n"); return 2; }
+    printf("mid-operation state, pending mask %#zx\n", mid);
+    if (op == 1) { what = "try_push_weak"; bool r = q->try_push_weak(Tracked(val)); printf("%s -> %d\n", what, r); }
+    else { what = "try_pop_weak"; Tracked res(val); bool r = q->try_pop_weak(res); printf("%s -> %d\n", what, r); }
+    printf("returned: property holds on this input\n");
+    _exit(0);     // the queue is deliberately not destroyed: pending cells are not a destructible state
   }
   if (!check_inv(*q, n, deq, model)) { printf("builder broken\n"); return 2; }
   n_ctor = n_dtor = n_bad = 0;
